@@ -29,11 +29,12 @@ lines = ['## E. Seeded changes (independent sub-agents, `/verif/seeded/<id>-<n>/
 for r in rows:
     lines.append('| %s | %s | %s | %s |' % (r[0], r[1], r[2], r[3].replace('|', '/')))
 lines += ['',
-          'What is still missed (exit 0): `Value::eq` for a lazy iterable against a sequence (C07-5), `Map::as_const` skipping a non-constant key (C04-3), a keyword argument whose value is none treated as not given',
-          '(C03-7), raw-block and `-}}` lexing with custom delimiters (C10-2, C10-3) and `render_debug_info` (C14-2, C14-6): Kani does not get through `dyn Object` iteration, the `fmt` machinery or',
-          'the tokenizer loops inside the caps, and these are not control-flow or data-flow facts that the MIR checks of engine M express without naming the very expression that was changed.  Inconclusive (exit 2): the',
-          'three harnesses that time out on the changed code and C20-7, where the changed `LoaderStore::clear` leaves the grammar engine L translates.',
-          'Rounds 6 and 7 (independent sub-agents, 24 changes) were first run against the checks as they stood - of the 12 changes of round 7 only C15-4 and C20-5 were caught at that point - and the checks were then extended where a missed change pointed at a fact that a',
+          'What is still missed (exit 0): `Map::as_const` skipping a non-constant key (C04-3), a keyword argument whose value is none treated as not given (C03-7), `undeclared_variables` re-parsing with the',
+          'environment\'s current delimiters after `set_syntax` (C18-5) and `render_debug_info` (C14-2, C14-6): Kani does not get through `BTreeMap`-backed kwargs, the `fmt` machinery or a whole `Template`, and these',
+          'are not control-flow or data-flow facts that a MIR query states without naming the very expression that was changed.  C01-6 (loop controls accepted in a macro body inside a loop; the render then panics) is',
+          'missed by the C01 check and caught by the C05 check (engine B\'s typing of the emitted stream), which is recorded as such.  Inconclusive (exit 2): the three harnesses that time out on the changed code, C20-7,',
+          'where the changed `LoaderStore::clear` leaves the grammar engine L translates, and C09-7, a parser-level rejection of `x[a:b:]` that only the native spelling row of the slice grid sees.',
+          'Rounds 6, 7 and 8 (independent sub-agents, 36 changes) were first run against the checks as they stood - of the 12 changes of round 7 only C15-4 and C20-5 were caught at that point - and the checks were then extended where a missed change pointed at a fact that a',
           'solver query over the MIR or the bytecode can state in general terms (captures, safe-string sources, comparison arms, flag discipline of the notifier, comparators of the ordering filters, pooled buffers,',
           'state ids, literal radix ...); each extension is described in A.2 / A.4 with the seed it now catches, and was also run on a behaviour-preserving refactoring where one was easy to write (e.g. the capture mode',
           'held in a local first; `clear()` only on the recycle side of the pool).', '']
